@@ -20,5 +20,6 @@ ProgsOneFile == {R("f1"), UC("f1"), UR("f1"), UE("f1"), RUC("f1"), UCUC("f1")}
 ProgsSmall == {R("f1"), UC("f1"), UR("f1")}
 ProgsTwoFiles == {UUC("f1", "f2"), UUC("f2", "f1"), R("f1"), UC("f2")}
 ProgsCreate == {CC("f1"), CR("f1"), R("f1"), UC("f1")}
+ProgsCreate2 == {CC("f2"), CR("f2"), R("f2"), UC("f2"), UC("f1")}
 None == {}
 =============================================================================
